@@ -437,7 +437,7 @@ def units(tier, seed):
 
     rng = random.Random(1234 + seed)
     shapes = [(3,), (2, 3), (3, 2, 2), (1, 3), (3, 1), (1,)] if tier == 'quick' else [(3,), (2, 3), (3, 2, 2), (4,), (3, 3), (2, 2, 2, 2), (1, 3), (3, 1), (1,), (1, 1)]
-    n_idx = 50 if tier == 'quick' else 2500
+    n_idx = 50 if tier == 'quick' else 6000
     D, P = (2, 2)
     for shp in shapes:
         seen = set()
